@@ -30,3 +30,9 @@ class DrivenXXZ(CouplingMPOModel, NearestNeighborModel):
             self.add_coupling(Jz, u1, 'Sz', u2, 'Sz', dx)
         self.add_onsite(h * np.cos(w * t), 0, 'Sz')
         self.add_onsite(h * np.sin(w * t), 0, 'Sx')
+
+
+def constant_measurement(value=1.0):
+    """A plain function (no results/psi/model/simulation arguments) to be connected as
+    ``[module, 'wrap constant_measurement', {'results_key': ..., 'value': ...}]``."""
+    return float(value)
